@@ -78,6 +78,10 @@ CLAIMED = {
    "Thin structural part, decided on every run: guards (empty samples, single rank group, zero variance) precede every result; each switch over the alternative covers its three constants; for every (alternative x exact/approximate branch) path, enumerated by abstract interpretation, the U statistic and the p-value expression equal the documented closed forms as rational functions with CDF/sqrt uninterpreted (U1, the three exact tails with the centre case and the cap at 1, mu, sigma^2 with the tie term, continuity correction, the three normal tails) and lie in [0,1] by interval evaluation; the tie term is the sum of t^3-t; the exact method is chosen exactly when both sizes are within the applicable limit; ties are flagged for any multi-member rank group; the legacy wrappers pass errors and P through.",
    "Does NOT decide exactness of the tied/untied U distributions (udist.go: recurrence, K=2 base case), symmetry of the two-sided value under swapping with ties, the half-step of the greater tail under ties, or floating-point cancellation (e.g. sigma being exactly 0 for all-equal input) — observed deviations O1 in DESIGN §5 are out of this family's reach. Trusted: go/types, go/ssa.",
    "path enumeration by abstract interpretation + rational-function identity with uninterpreted functions + interval evaluation"),
+ "C12": ("DESIGN.md §4 C12 (thin)",
+   "Thin structural part, decided on every run: each t-test has its documented error returns and produces a result only after its guards; for every success path (enumerated by abstract interpretation) the t statistic and degrees of freedom equal the textbook formulas as rational functions with sqrt uninterpreted (pooled, Welch, paired, one-sample); the three tails incl. two-sided = 2(1-F(|t|)); the t CDF's three cases (1/2 at 0, the incomplete-beta form, reflection); the normal CDF through erfc; the incomplete beta's log-domain prefactor, symmetry switch point and complement form; the R8 position and linear interpolation; Percentile reads values only when known sorted; nothing on the t distribution's path calls math.Gamma.",
+   "Does NOT decide accuracy, monotonicity, range, inverse-CDF round trips, convergence of the continued fraction, or ulp-level agreement of descriptive statistics (all numerical); equality is over the reals, blind to cancellation and summation order. Trusted: go/types, go/ssa.",
+   "path enumeration by abstract interpretation + rational-function identity with uninterpreted functions + who-may-call rule"),
 }
 
 NOT_YET = "check not built yet in this round (planned in DESIGN.md); not claimed until its rules run clean on the unchanged tree"
